@@ -287,6 +287,7 @@ pub fn resolve_inputs(spec: &str, seed: u64) -> Vec<Input> {
             "fam" => out.extend(family_inputs(f[2], f[1])),
             "ctl" => out.extend(control_inputs(f[1])),
             "ops" => out.extend(operator_inputs()),
+            "manyimp" => out.extend(many_import_inputs()),
             "dupimp" => out.extend(duplicate_import_inputs(seed, f[1].parse().unwrap())),
             "par" => out.extend(parallel_inputs(seed, f[1].parse().unwrap())),
             "proposals" => out.extend(proposal_inputs(seed, f[1].parse().unwrap())),
@@ -1489,4 +1490,47 @@ pub fn exec_case(inp: &Input, gc_runs: u32) -> Option<Value> {
     }
     Some(json!({"id": format!("{}~gc{}", inp.id, gc_runs), "source": inp.source, "skip": false, "outcome": "ok", "inp": inp_prog, "outp": out_prog, "calls": calls, "fuel": 40,
                 "lenient_inst": gc_runs > 0}))
+}
+
+/// function counts on both sides of the LEB128 length boundaries, split differently between imported and local
+/// functions (the function *index space* and the *code section* count are different numbers)
+pub fn many_import_inputs() -> Vec<Input> {
+    use crate::gen::*;
+    use wasm_encoder::Instruction as I;
+    let mut out = vec![];
+    for (nimp, nloc) in [(0usize, 127usize), (0, 128), (0, 129), (1, 127), (2, 126), (100, 30), (127, 1), (128, 1), (130, 127), (130, 128), (200, 5)] {
+        let mut d = Desc::default();
+        d.types.push(Sig { params: vec![], results: vec![] });
+        for k in 0..nimp {
+            d.funcs.push(FuncD { ty: 0, imported: true });
+            d.imports.push(Imp { module: "env".into(), field: format!("h{}", k), kind: ImpKind::Func(k as u32) });
+        }
+        for k in 0..nloc {
+            d.funcs.push(FuncD { ty: 0, imported: false });
+            // unequal sizes, an if without else, and a call to an import when there is one
+            let mut ins = vec![];
+            for j in 0..(k % 4) {
+                ins.push(I::I32Const(j as i32));
+                ins.push(I::Drop);
+            }
+            if k % 3 == 0 {
+                ins.push(I::I32Const(1));
+                ins.push(I::If(wasm_encoder::BlockType::Empty));
+                ins.push(I::Nop);
+                ins.push(I::End);
+            }
+            if nimp > 0 {
+                ins.push(I::Call((k % nimp) as u32));
+            }
+            ins.push(I::End);
+            d.bodies.push(BodyD { locals: vec![], instrs: ins });
+        }
+        for k in 0..nloc {
+            if k % 2 == 0 || nloc < 4 {
+                d.exports.push(ExportD { name: format!("e{}", k), kind: wasm_encoder::ExportKind::Func, idx: (nimp + k) as u32 });
+            }
+        }
+        out.push(Input { id: format!("manyimp-{}-{}", nimp, nloc), bytes: d.encode(), source: format!("manyimp:{}:{}", nimp, nloc) });
+    }
+    out
 }
